@@ -29,7 +29,7 @@ class _Gen:
         if r < self.p_exn:
             return ["exn", self.rng.randint(0, 9)]
         if r < self.p_exn + self.p_err:
-            return ["err"]
+            return ["err", self.rng.randrange(sp.N_ERR_VARIANTS)]
         if r < self.p_exn + self.p_err + 0.10:
             return ["null"]
         if r < self.p_exn + self.p_err + 0.17:
